@@ -66,10 +66,12 @@ func genC07(t *rapid.T) c07Case {
 		switch k := rapid.SampledFrom(kinds).Draw(t, l+".kind"); k {
 		case "write":
 			id := rapid.SampledFrom(c07Items).Draw(t, l+".id")
-			encs := []string{"expnum", "exprfc", "ttlstr", "ttlnum", "none"}
+			// ("ttlint": the number as a Go int64, which is what a script
+			// hands over when it writes {ttl: 3})
+			encs := []string{"expnum", "exprfc", "ttlstr", "ttlnum", "ttlint", "none"}
 			if id == "r1" {
 				// a rule's `expires` is documented as UNIX seconds only
-				encs = []string{"expnum", "ttlstr", "ttlnum", "none"}
+				encs = []string{"expnum", "ttlstr", "ttlnum", "ttlint", "none"}
 			}
 			enc := rapid.SampledFrom(encs).Draw(t, l+".enc")
 			var d float64
@@ -232,7 +234,7 @@ func runC07(c c07Case) *vlib.Outcome {
 				switch enc {
 				case "expnum", "exprfc":
 					return floorNow + int64(d)
-				case "ttlnum":
+				case "ttlnum", "ttlint":
 					return at.Unix() + int64(d)
 				case "ttlstr":
 					return at.Add(time.Duration(d) * time.Millisecond).Unix()
@@ -246,6 +248,8 @@ func runC07(c c07Case) *vlib.Outcome {
 				doc["expires"] = time.Unix(expiryAt(t), 0).UTC().Format(time.RFC3339)
 			case "ttlnum":
 				doc["ttl"] = d
+			case "ttlint":
+				doc["ttl"] = int64(d)
 			case "ttlstr":
 				doc["ttl"] = (time.Duration(d) * time.Millisecond).String()
 			}
